@@ -171,6 +171,30 @@ def nonempty_entry(entry):
     return None
 
 
+_MASK_CALLS = {"isnan", "isclose", "isin", "isna", "isnull", "notna", "notnull", "isfinite", "isinf", "logical_and", "logical_or", "logical_not"}
+
+
+def _is_mask(k):
+    """a subscript key that is an element-wise truth vector (not a column name, a position or a slice)"""
+    if k[0] == "cmp":
+        return k[1] not in ("in", "not in", "is", "is not")
+    if k[0] == "un" and k[1] == "~":
+        return True
+    if k[0] == "bin" and k[1] in ("&", "|", "^"):
+        return _is_mask(k[2]) or _is_mask(k[3])
+    if k[0] == "call":
+        f = k[1]
+        name = f[2] if f[0] == "attr" else (f[1].split(".")[-1] if f[0] == "global" else None)
+        return name in _MASK_CALLS
+    return False
+
+
+def _unmask(v, mask):
+    """x[mask] inside the value assigned under the same mask reads as x (element-wise at full length)"""
+    hits = {x: x[1] for x in walk(v) if x[0] == "sub" and x[2] == mask}
+    return subst(v, hits) if hits else v
+
+
 def own_conditions(summary, pc):
     """the entries of a path condition that are NOT just 'an earlier guard clause did not fire' (the complement of the last condition of
     some return / raise with the same prefix): what genuinely restricts the statement"""
@@ -546,6 +570,12 @@ class _Eval:
         elif isinstance(tgt, ast.Subscript):
             old = self.expr(tgt.value)
             key = self.expr(tgt.slice)
+            if _is_mask(key) and not aug:
+                # arr[mask] = v is numpy.where(mask, v, arr) (a compressed right-hand side x[mask] read at full length): one spelling
+                v_full = subst(v, {("sub", old, key): old}) if any(x == ("sub", old, key) for x in walk(v)) else v
+                v_full = _unmask(v_full, key)
+                self.store(tgt.value, self.mk(("call", ("global", "numpy.where"), (key, v_full, old), ()), st), st, soft=True)
+                return
             self.store(tgt.value, self.mk(("setitem", old, key, v), st), st, soft=True)
         elif isinstance(tgt, ast.Starred):
             self.store(tgt.value, ("unknown", "starred"), st)
